@@ -2,6 +2,7 @@ package props
 
 import (
 	"bytes"
+	"encoding/json"
 	"fmt"
 	"os"
 	"os/exec"
@@ -58,17 +59,44 @@ func TestC09_SteppedLimit(t *testing.T) {
 		if rapid.IntRange(0, 2).Draw(t, "pipeline") == 0 {
 			args = []string{"save-pipeline", "--", "newpipe", "cat x | sort | uniq -c"}
 		}
-		// the two legal outcomes: the notebook as it is, and as an unfaulted run of the same save leaves it
+		// the other file the tool rewrites: the search history, rewritten by every search
+		hist := rapid.IntRange(0, 2).Draw(t, "history-target") == 0
+		target := base.Notebook()
+		var oldQueries []string
+		if hist {
+			target = base.History()
+			dbp := filepath.Join(dir, "db.yml")
+			os.WriteFile(dbp, gen.EmitYAML(c08Main), 0o644)
+			var sb strings.Builder
+			sb.WriteString(`{"entries":[`)
+			for i := 0; i < 3*n; i++ {
+				q := fmt.Sprintf("earlier question number %d about files and disks", i)
+				oldQueries = append(oldQueries, q)
+				if i > 0 {
+					sb.WriteString(",")
+				}
+				fmt.Fprintf(&sb, `{"query":%q,"timestamp":"2024-01-02T03:04:%02dZ","results_count":%d}`, q, i%60, i%7)
+			}
+			sb.WriteString(`],"max_size":100}`)
+			os.MkdirAll(filepath.Dir(target), 0o755)
+			os.WriteFile(target, []byte(sb.String()), 0o644)
+			args = []string{"--no-color", "-d", dbp, "--", "compress directory"}
+		}
+		// the two legal outcomes: the file as it is, and as an unfaulted run of the same command leaves it
 		ref, _ := proc.NewHome(dir)
-		os.MkdirAll(filepath.Dir(ref.Notebook()), 0o755)
-		old := readOrNil(base.Notebook())
-		os.WriteFile(ref.Notebook(), old, 0o644)
-		if r := runWtf(ref, dir, args); !saidSaved(r.Stdout, "save") {
+		refTarget := ref.Notebook()
+		if hist {
+			refTarget = ref.History()
+		}
+		os.MkdirAll(filepath.Dir(refTarget), 0o755)
+		old := readOrNil(target)
+		os.WriteFile(refTarget, old, 0o644)
+		if r := runWtf(ref, dir, args); !hist && !saidSaved(r.Stdout, "save") {
 			t.Fatalf("harness: unfaulted save failed: %s %s", r.Stdout, r.Stderr)
 		}
-		want := readOrNil(ref.Notebook())
-		if len(want) < 200 {
-			t.Fatalf("harness: new notebook only %d bytes", len(want))
+		want := readOrNil(refTarget)
+		if len(want) < 200 || bytes.Equal(want, old) {
+			t.Fatalf("harness: unfaulted run left %d bytes (old %d)", len(want), len(old))
 		}
 		k1 := rapid.IntRange(1, len(want)-2).Draw(t, "k1")
 		k2 := rapid.IntRange(k1+1, len(want)-1).Draw(t, "k2")
@@ -83,19 +111,19 @@ func TestC09_SteppedLimit(t *testing.T) {
 		}
 		done := make(chan error, 1)
 		go func() { done <- cmd.Wait() }()
-		nbDir := filepath.Dir(base.Notebook())
+		nbDir := filepath.Dir(target)
 		biggestOther := func() int64 {
 			var m int64 = -1
 			ents, _ := os.ReadDir(nbDir)
 			for _, e := range ents {
-				if e.Name() == filepath.Base(base.Notebook()) {
+				if e.Name() == filepath.Base(target) {
 					continue
 				}
 				if fi, err := e.Info(); err == nil && fi.Size() > m {
 					m = fi.Size()
 				}
 			}
-			if fi, err := os.Stat(base.Notebook()); err == nil && fi.Size() != int64(len(old)) && fi.Size() > m {
+			if fi, err := os.Stat(target); err == nil && fi.Size() != int64(len(old)) && fi.Size() > m {
 				m = fi.Size() // a program that writes the notebook in place
 			}
 			return m
@@ -136,15 +164,33 @@ func TestC09_SteppedLimit(t *testing.T) {
 		if strings.Contains(out, "panic:") || strings.Contains(out, "fatal error:") {
 			t.Fatalf("`wtf %q` crashed under a stepped file-size limit: %s", args, clip(out))
 		}
-		got := readOrNil(base.Notebook())
+		got := readOrNil(target)
 		state := ""
+		var newLog struct {
+			Entries []struct {
+				Query string `json:"query"`
+			} `json:"entries"`
+		}
 		switch {
 		case bytes.Equal(got, want):
 			state = "new"
 		case bytes.Equal(got, old):
 			state = "old"
+		case hist && json.Unmarshal(got, &newLog) == nil && len(newLog.Entries) == len(oldQueries)+1 && newLog.Entries[len(oldQueries)].Query == "compress directory" && func() bool {
+			for i, q := range oldQueries {
+				if newLog.Entries[i].Query != q {
+					return false
+				}
+			}
+			return true
+		}():
+			state = "new" // (the new entry's time stamp and duration differ from the reference run's)
 		default:
-			t.Fatalf("after a save whose write was cut short at byte %d, resumed room up to byte %d and then unlimited (new content %d bytes; limits reached: %v %v) the notebook holds %d bytes that are neither the old (%d) nor the new content; the run printed: %s\n notebook now: %+q", k1, k2, len(want), reached1, reached2, len(got), len(old), clip(out), clip(string(got)))
+			t.Fatalf("after a save whose write was cut short at byte %d, resumed room up to byte %d and then unlimited (new content %d bytes; limits reached: %v %v) the file holds %d bytes that are neither the old (%d) nor the new content; the run printed: %s\n notebook now: %+q", k1, k2, len(want), reached1, reached2, len(got), len(old), clip(out), clip(string(got)))
+		}
+		if hist {
+			rec.Case(reached1 || state == "old", map[string]any{"target": "history", "k1": k1, "k2": k2, "new_bytes": len(want), "state": state, "reached_first": reached1, "reached_second": reached2}, "stepped-limit", "stepped-history:"+state)
+			return
 		}
 		if saidSaved(out, "save") && state != "new" {
 			t.Fatalf("the save reported success but the notebook still holds the old content (limits %d, %d of %d bytes): %s", k1, k2, len(want), clip(out))
